@@ -489,12 +489,9 @@ impl Mon {
             _ => return,
         };
         let mint = w.mint_of_bank(bi);
-        let fee_of = |x: u64| -> u64 {
-            match mint.kind {
-                crate::world::TokKind::T22Fee { bps, max } => (((x as u128 * bps as u128) + 9999) / 10000).min(max as u128) as u64,
-                _ => 0,
-            }
-        };
+        // the fee the token program charges now (the mint's schedule may have changed since creation)
+        let (fee_bps, fee_max) = w.transfer_fee_now(w.banks[bi].mint);
+        let fee_of = |x: u64| -> u64 { (((x as u128 * fee_bps as u128) + 9999) / 10000).min(fee_max as u128) as u64 };
         let avail = ru((i0 - fee_of(i0)) as u128);
         let covered = rmin(&bad.v, &avail);
         let ins_out = i0 - i1;
